@@ -340,7 +340,7 @@ def run(ctx):
         "evaluations": acc.n, "distinct_nontrivial": acc.nontrivial,
         "states": len(acc.sets["pos"]), "transitions": acc.traces,
         "traces_validated_against_impl": acc.traces,
-        "rule": "%d grammar positions (the curated ones; thorough adds every composition up to depth 3 of sequence-first / sequence-last / sequence-only / set-member contexts x bare | with units | units on the sequence x 5 block wrappers) x %d spellings (reals %r, integers %r) x 4 real classes (float, Decimal, a recording float subclass, a text-keeping class outside the numeric tower) x 2 quantity classes x "
+        "rule": "%d grammar positions (the curated ones; thorough adds every composition up to depth 3 of sequence-first / sequence-last / sequence-only / set-member contexts x bare | with units | units on the sequence x 5 block wrappers) x %d spellings (reals %r, integers and strings %r) x 4 real classes (float, Decimal, a recording float subclass, a text-keeping class outside the numeric tower) x 2 quantity classes x "
                 "2 container-class sets x 11 parser/decoder families (the five configurations; four of them and pvl.loads again with grammar and decoder built separately; pvl.loads of bytes), full product; states = (position, "
                 "substitute combination); non-trivial = both configurations loaded and every node of the result "
                 "was type-checked and compared after mapping back" % (len(POSITIONS), len(REALS + INTS + STRS), REALS, INTS + STRS),
